@@ -143,6 +143,10 @@ def deep_merge_multi_update(dct, merge_dct):
                 dct[k] = {
                     '_multi_update': [
                         dct[k], merge_dct[k]]}
+        elif type(merge_dct[k]) is dict:  # pylint: disable=unidiomatic-typecheck
+            # copy the dictionaries (not their leaves): later merges must
+            # not write into the caller's update
+            dct[k] = deep_merge_multi_update({}, merge_dct[k])
         else:
             dct[k] = merge_dct[k]
     return dct
